@@ -393,6 +393,63 @@ example : (URL.navigateAllWith false exBaseMulti ([⟨none, none, [], some [], s
 example : DotFree exBase.parts ∧ (∀ r ∈ [exRef, ⟨none, none, "..//x".toList, none, none⟩, exRefMulti, exRefFrag],
     RelRef r ∧ r.query ≠ some [] ∧ CanonQ r.query) := by decide
 
+
+/-! ### navigate's glue: which component comes from where (any base, any non-replacing reference, either version) -/
+
+/-- the fragment is never inherited: the result carries the reference's fragment (none if it has none) -/
+theorem navigate_fragment (honour : Bool) (b dest : URL) (h : ¬ (dest.scheme ≠ [] ∧ dest.host ≠ [])) :
+    (URL.navigateWith honour b dest).fragment = dest.fragment := by
+  unfold URL.navigateWith
+  rw [if_neg h]
+  simp [URL.normalize]
+
+/-- scheme / userinfo / host / port: the reference's own value where it has one (`dest.x or self.x`), else the
+    base's; scheme and host then lower-cased by the final `normalize()`; the address family follows the host.
+    This covers scheme-relative references (`//host/p`) and references passed as edited `URL` objects too. -/
+theorem navigate_authority_fields (honour : Bool) (b dest : URL) (h : ¬ (dest.scheme ≠ [] ∧ dest.host ≠ [])) :
+    let n := URL.navigateWith honour b dest
+    n.scheme = lower (orStr dest.scheme b.scheme) ∧ n.host = lower (orStr dest.host b.host) ∧
+      n.user = orStr dest.user b.user ∧ n.pass = orStr dest.pass b.pass ∧
+      n.port = (if dest.port ≠ 0 then dest.port else b.port) ∧
+      n.v6 = (if dest.host ≠ [] then dest.v6 else b.v6) ∧ n.netlocSep = false ∧ n.hasQuery = false := by
+  unfold URL.navigateWith
+  rw [if_neg h]
+  simp [URL.normalize]
+
+/-- a scheme-relative reference `//h:99/p/../q` against `exBase` (`http://u@a:81/b/c/d;p?q`): host and port of the
+    reference, scheme AND userinfo of the base (boltons keeps `u@`; RFC 3986 would drop it - references with an
+    authority are outside the statement), path and query of the reference -/
+def exSchemeRel : URL := URL.ofComponents none true [] [] "H".toList false 99 "/p/../q".toList none none
+example : ¬ (exSchemeRel.scheme ≠ [] ∧ exSchemeRel.host ≠ []) := by decide
+example : (URL.navigateWith true exBase exSchemeRel).toText = "http://u@h:99/q".toList ∧
+    (URL.navigateWith false exBase exSchemeRel).toText = "http://u@h:99/q".toList := by decide
+
+/-- `normalize()` case rules: scheme and host are lower-cased exactly when `with_case`; userinfo, port, query and
+    fragment are never touched; the path is dot-resolved either way -/
+theorem normalize_fields (u : URL) (c : Bool) :
+    (u.normalize c).scheme = (if c then lower u.scheme else u.scheme) ∧
+    (u.normalize c).host = (if c then lower u.host else u.host) ∧
+    (u.normalize c).parts = resolvePathParts u.parts ∧
+    (u.normalize c).user = u.user ∧ (u.normalize c).pass = u.pass ∧ (u.normalize c).port = u.port ∧
+    (u.normalize c).query = u.query ∧ (u.normalize c).fragment = u.fragment ∧ (u.normalize c).v6 = u.v6 := by
+  cases c <;> simp [URL.normalize]
+
+/-- the result of `navigate` has a lower-case scheme and host (`normalize()` is its last step) -/
+theorem navigate_result_lowercase (honour : Bool) (b dest : URL) (h : ¬ (dest.scheme ≠ [] ∧ dest.host ≠ [])) :
+    lower (URL.navigateWith honour b dest).scheme = (URL.navigateWith honour b dest).scheme ∧
+    lower (URL.navigateWith honour b dest).host = (URL.navigateWith honour b dest).host := by
+  have := navigate_authority_fields honour b dest h
+  simp only at this
+  rw [this.1, this.2.1]
+  exact ⟨lower_idem _, lower_idem _⟩
+
+/-- a text and the `URL` parsed from it are the same reference (the model's `dest` IS `URL(text)`): what differs
+    between the two call styles is only whether a replacing absolute reference is returned as the parsed object or
+    as a copy made through `to_text()`; for a dest with a host that copy prints the same text -/
+theorem navigate_replacing_text (b dest : URL) (hs : dest.scheme ≠ []) (hh : dest.host ≠ []) :
+    (b.navigate dest).toText = dest.toText := by
+  rw [navigate_absolute_replaces b dest hs hh]
+
 /-- `normalize()` is idempotent, with or without case normalisation, for every URL object -/
 theorem normalize_idempotent (u : URL) (c : Bool) : (u.normalize c).normalize c = u.normalize c := by
   unfold URL.normalize
